@@ -124,8 +124,8 @@ func (m *mock) GetStateChan(ctx context.Context) <-chan string {
 	return ch
 }
 
-func (m *mock) Reload(context.Context)     { m.reloads.Add(1) }
-func (m *mock) ReloadWithConfig(c any)      { m.cfg.Store(fmt.Sprint(c)); m.reloads.Add(1) }
+func (m *mock) Reload(context.Context)              { m.reloads.Add(1) }
+func (m *mock) ReloadWithConfig(c any)              { m.cfg.Store(fmt.Sprint(c)); m.reloads.Add(1) }
 func (m *mock) GetReloadTrigger() <-chan struct{}   { return m.reloadTr }
 func (m *mock) GetShutdownTrigger() <-chan struct{} { return m.shutTr }
 
@@ -249,9 +249,19 @@ func compositeTarget(r *prng.R, sc *scenario) {
 		{"GetChildStates", func(context.Context, *prng.R) { _ = runner.GetChildStates() }},
 		{"GetStateChan", stateChanOp(runner.GetStateChan)},
 		{"GetStateChanWithTimeout", stateChanOp(runner.GetStateChanWithTimeout)},
-		{"ReloadGrow", func(ctx context.Context, r *prng.R) { idx.Store(int64(2 * (1 + r.Intn(n-1)))); bg(func() { runner.Reload(ctx) }) }},
+		{"ReloadGrow", func(ctx context.Context, r *prng.R) {
+			idx.Store(int64(2 * (1 + r.Intn(n-1))))
+			bg(func() { runner.Reload(ctx) })
+		}},
 		{"ReloadSame", func(ctx context.Context, r *prng.R) { idx.Store(idx.Load() ^ 1); bg(func() { runner.Reload(ctx) }) }},
-		{"ReloadGrow", func(ctx context.Context, r *prng.R) { idx.Store(int64(2*(n-1) + r.Intn(2))); bg(func() { runner.Reload(ctx) }) }},
+		{"ReloadGrow", func(ctx context.Context, r *prng.R) {
+			idx.Store(int64(2*(n-1) + r.Intn(2)))
+			bg(func() { runner.Reload(ctx) })
+		}},
+	}
+	if r.Chance(1, 5) {
+		// Run() is a public method too: a second call while the first is in progress
+		sc.ops = append(sc.ops, namedOp{"RunAgain", func(ctx context.Context, _ *prng.R) { bg(func() { _ = runner.Run(ctx) }) }})
 	}
 	sc.finish = []namedOp{
 		{"Stop", func(context.Context, *prng.R) { bg(runner.Stop) }},
@@ -306,6 +316,9 @@ func httpserverTarget(r *prng.R, sc *scenario) {
 		{"ReloadUnchanged", func(ctx context.Context, r *prng.R) { bg(func() { runner.Reload(ctx) }) }},
 		{"HTTPGet", func(context.Context, *prng.R) { bg(func() { httpGet(addr) }) }},
 	}
+	if r.Chance(1, 5) {
+		sc.ops = append(sc.ops, namedOp{"RunAgain", func(ctx context.Context, _ *prng.R) { bg(func() { _ = runner.Run(ctx) }) }})
+	}
 	sc.finish = []namedOp{{"Stop", func(context.Context, *prng.R) { bg(runner.Stop) }}}
 }
 
@@ -352,6 +365,9 @@ func httpclusterTarget(r *prng.R, sc *scenario) {
 		{"GetStateChanWithTimeout", stateChanOp(runner.GetStateChanWithTimeout)},
 		{"SiphonPush", push},
 		{"GetConfigSiphon", func(context.Context, *prng.R) { _ = runner.GetConfigSiphon() }},
+	}
+	if r.Chance(1, 5) {
+		sc.ops = append(sc.ops, namedOp{"RunAgain", func(ctx context.Context, _ *prng.R) { bg(func() { _ = runner.Run(ctx) }) }})
 	}
 	sc.finish = []namedOp{{"Stop", func(context.Context, *prng.R) { bg(runner.Stop) }}}
 }
@@ -439,6 +455,9 @@ func supervisorTarget(r *prng.R, sc *scenario) {
 			})
 		}},
 		{"MockStateChange", func(_ context.Context, r *prng.R) { mocks[r.Intn(len(mocks))].setState("Running") }},
+	}
+	if r.Chance(1, 5) {
+		sc.ops = append(sc.ops, namedOp{"RunAgain", func(context.Context, *prng.R) { bg(func() { _ = sv.Run() }) }})
 	}
 	if comp != nil {
 		sc.ops = append(sc.ops,
@@ -556,6 +575,10 @@ func main() {
 			threads[g] = append(threads[g], o.name)
 		}
 		fmt.Fprintf(h, "%d:%v;", g, threads[g])
+	}
+	// the plan goes to stderr up front, so that it is known even if the scenario crashes the process
+	if pb, err := json.Marshal(map[string]any{"target": tg, "idx": *idx, "finish": fin.name, "threads": threads}); err == nil {
+		fmt.Fprintln(os.Stderr, "PLAN "+string(pb))
 	}
 	// every op draws from the generator of the goroutine that executes it (the harness is race free)
 	for g := 0; g < k; g++ {
